@@ -94,8 +94,7 @@ class C09(Prop):
             "trace has >= 2 task lines; distinct = distinct canonical implementation trace")
     not_covered = ["memory errors inside the failing task itself (C01) - only observed by ASan/UBSan on the generated runs",
                    "real signal delivery, the real 2 s timer thread (ticks are injected exactly as its callback does)",
-                   "the same descriptor reported twice in one poll (data and end-of-file together), a console line behind "
-                   "a failing accept in one poll (the doorbell is not rung again), write-ready events",
+                   "the same descriptor reported twice in one poll (data and end-of-file together), write-ready events",
                    "address-server pipe, LPC sockets, ed, snoop, exec(), get_char, the `!` escape, "
                    "input_to armed from net_dead / call_out / heart_beat (inherited command_giver)",
                    "an object destructed by its own reset() when its clean_up is due (the C code applies clean_up to it)",
@@ -337,6 +336,7 @@ class C09(Prop):
              back, "backend:recovery point before the start-up steps"),
             (r"if\s*\(\s*duration\s*<\s*0\s*\)", back, "update_load_av:clamp"),
             (r"ret\s*=\s*safe_apply_master_ob\s*\(\s*APPLY_CONNECT", back, "mudlib_connect:connect under its own recovery point"),
+            (r"safe_apply\s*\(\s*APPLY_LOGON,\s*ob", back, "mudlib_logon:logon under its own recovery point"),
             (r"for\s*\(idx = 0; idx < g_num_io_events; idx\+\+\)\s*\n\s*if\s*\(g_io_events\[idx\]\.context == ip\)\s*\n\s*g_io_events\[idx\]\.context = 0;[^}]*?FREE \(ip\);",
              comm, "remove_interactive:pending events of the freed record cleared"),
         ]
@@ -456,9 +456,12 @@ class C09(Prop):
         mk("batch-console-and-network", ["mode console", "script u1 cmd:boom err", "step conn:c1", "step conn:c2",
                                          "step send:c1:a/ cin:boom/ reset:c2 tick", "step cin:b/ conn:c3 send:c1:c/",
                                          "step close:c1 cin:d/ send:c3:e/"])
-        mk("batch-logon-error-abandons-rest", [
+        mk("batch-logon-error-keeps-rest", [
             "mode net", "script u3 logon err", "step conn:c1", "step conn:c2", "step conn:c3 send:c1:a/ close:c2",
             "step idle", "step send:c1:b/"])
+        # the console line that arrives in the same poll as a connection whose logon() raises is served in that cycle
+        mk("batch-console-line-behind-failing-logon", ["mode console", "script u2 logon err", "step cin:first/",
+                                                       "step conn:c1 cin:hello/"])
         # table boundary: slots 1..49 full, the 50th network connection makes all_users grow from 50 to 100 entries;
         # the console user (slot 0) and a user of the first chunk keep working afterwards
         mk("fifty-one-connections", ["mode console", "script u3 netdead err"] + ["step conn:c%d" % i for i in range(1, 52)] +
@@ -676,17 +679,8 @@ class C09(Prop):
                         sent[0] = sent.get(0, 0) + t.count("/")
                         acts.append("cin:" + t)
                 rng.shuffle(acts)
-                # an error in logon() leaves process_io() by longjmp: the events behind the accept are reported again
-                # by the next poll (level-triggered).  Console completions are not (the doorbell is not rung again):
-                # a console line never follows an accept in a batch; and the step after such a batch is quiet, so the
-                # re-reported events are not mixed with new ones on the same descriptors
-                ci = [i for i, a in enumerate(acts) if a.startswith("conn")]
-                if ci and any(a.startswith("cin") for a in acts[ci[0]:]):
-                    a = acts.pop(ci[0])
-                    acts.append(a)
-                    ci = [len(acts) - 1]
-                if ci and ci[0] != len(acts) - 1:
-                    quiet_next = True
+                # (logon() runs under its own recovery point - fix commit -, so an accept in front of other events,
+                #  console lines included, cannot make process_io() abandon them any more: no restriction on the order)
                 if len(acts) > 1:
                     batch = True
             if rng.chance(35, 100) or not acts:
